@@ -116,7 +116,7 @@ Section Prod2.
 End Prod2.
 
 Lemma composite_ops_tgt : forall c l cu o k, composite_step c l cu = Some (Some o, k) -> op_tgt_ok o = true.
-Proof. solve_ops. Qed.
+Proof. unfold composite_step. solve_ops. Qed.
 Lemma http_ops_tgt : forall c l cu o k, http_step c l cu = Some (Some o, k) -> op_tgt_ok o = true.
 Proof. unfold http_step. solve_ops. Qed.
 Lemma cluster_ops_tgt : forall c l cu o k, cluster_step c l cu = Some (Some o, k) -> op_tgt_ok o = true.
